@@ -172,7 +172,8 @@ def shards(tier, props, known):
     N = 4 if tier == "quick" else 5
     for n in range(N + 1):
         for m in range(N + 1):
-            out.append(("make_lists", "lists-%dx%d" % (n, m), dict(n=n, m=m, **kw)))
+            if n + m <= 8:          # 5x4 / 4x5 / 5x5 with symbolic JSON types are out of reach (millions of paths)
+                out.append(("make_lists", "lists-%dx%d" % (n, m), dict(n=n, m=m, **kw)))
     if tier == "quick":
         for i in range(3):
             for j in range(3):
@@ -182,7 +183,7 @@ def shards(tier, props, known):
     else:
         for i in range(4):
             for j in range(4):
-                if i + j <= 5:
+                if i + j <= 4 or (i, j) in ((3, 2), (2, 3)):
                     out.append(("make_nested", "nestedL-%dx%d" % (i, j),
                                 dict(root="L", alts="ALTS_QUICK", na=i, nb=j, **kw)))
         for i in range(3):
@@ -190,7 +191,7 @@ def shards(tier, props, known):
                 out.append(("make_nested", "deepL-%dx%d" % (i, j),
                             dict(root="L", alts="ALTS_DEEP", na=i, nb=j, **kw)))
         out.append(("make_nested", "nestedD-abc",
-                    dict(root="D", alts="ALTS_QUICK", na=0, keys=("a", "b", "c"), **kw)))
+                    dict(root="D", alts="ALTS_MERGE_S", na=0, keys=("a", "b", "c"), **kw)))
         out.append(("make_nested", "deepD-ab", dict(root="D", alts="ALTS_DEEP", na=0, **kw)))
     M = 2 if tier == "quick" else 3
     for n in range(M + 1):
@@ -216,9 +217,9 @@ BOUNDS = {
         "small-alphabet": "all pairs of lists of 0..2 (3 thorough) concrete scalars over {null, true, 1, 1.0, 0, 'a'} (enumeration; covers code that hashes leaves)",
     },
     "thorough": {
-        "flat-lists": "all pairs of lists of 0..5 JSON scalars, every leaf symbolic",
+        "flat-lists": "all pairs of lists of 0..5 JSON scalars with total length <= 8, every leaf symbolic",
         "nested-lists": "pairs of lists of 0..3 elements from docs.ALTS_QUICK with total length <= 5; pairs of lists of 0..2 elements from docs.ALTS_DEEP (adds depth-3 shapes)",
-        "objects": "objects with keys within {a,b,c} over ALTS_QUICK; keys within {a,b} over ALTS_DEEP",
+        "objects": "objects with keys within {a,b,c} over {scalar, [x], {a}}; keys within {a,b} over ALTS_DEEP",
         "strings": "all ordered pairs of the %d-string pool gen/pools.TEXT (enumeration)" % len(pools.TEXT),
         "string-elements": "as quick",
     },
